@@ -506,6 +506,29 @@ def _exercise_model(locs, rnd, ctx, axes):
                 ctx.violation({"kind": "variation", "func": "VariationModel", "what": "interpolating at a master's location does not return the master"},
                               "master not reproduced", {"locations": repr(order), "master": i, "got": got, "want": fv[i]})
                 return
+    # the caller may re-order the masters afterwards (multi-step history): the same
+    # identities must hold in the new order (the getDeltas monitor judges them too)
+    if n > 1:
+        perm = list(range(n))
+        rnd.shuffle(perm)
+        vals = [rnd.randrange(-1000, 1000) for _ in range(n)]
+        new_vals = model.reorderMasters(list(vals), perm)
+        new_order = [order[i] for i in perm]
+        ctx.judged()
+        if list(new_vals) != [vals[i] for i in perm]:
+            ctx.violation({"kind": "variation", "func": "VariationModel.reorderMasters", "what": "returned list is not the permuted list"},
+                          "reorderMasters returned a wrong list", {"perm": perm})
+            return
+        model.getDeltas(new_vals)          # monitored: interpolation condition at every master
+        for i, l in enumerate(new_order):
+            pf = {k: float(v) for k, v in l.items()}
+            got = model.interpolateFromMasters(pf, new_vals)
+            got = 0 if got is None else got
+            ctx.judged()
+            if not _close(got, new_vals[i], 1000.0):
+                ctx.violation({"kind": "variation", "func": "VariationModel.reorderMasters", "what": "after reordering, interpolating at a master's location does not return the master"},
+                              "master not reproduced after reorderMasters", {"locations": repr(new_order), "perm": perm, "master": i, "got": got, "want": new_vals[i]})
+                return
 
 
 def _drv_models1(case, rnd, ctx):
